@@ -86,129 +86,262 @@ def run(ctx: Ctx) -> None:
                         walk(sub, ctxs + [s])
         walk(body, [])
         return out
+    # ---- the two loop nests, path by path with every local inlined
+    from sa.casesplit import equivalent
+    from sa.pathinline import Path, paths, subst
+    from sa.symterm import _eq, c_and, c_not, show_cond
+    top = paths(body)
+    tp = next((p_ for p_ in top if p_.ended != "raise"), None)
+    npar = Poly.atom(("app", "len", (Poly.var(fi.params[1]),)))
+    from sa.kern import py_calls
+    ev = make_evaluator(repo, fi, extra_call=py_calls)
+
+    def nest_of(nm: str) -> tuple[Any, list[ast.For]] | None:
+        """(loop event, [outer, inner]) of the loop nest that stores into
+        matrix `nm`."""
+        if tp is None:
+            return None
+        for e in tp.events:
+            if e.kind == "loop" and isinstance(e.node, ast.For) and any(
+                    isinstance(x, ast.Subscript) and isinstance(
+                        x.ctx, ast.Store) and ast.unparse(x.value) == nm
+                    for x in ast.walk(e.node)):
+                inner = [x for x in e.node.body if isinstance(x, ast.For)]
+                if len(inner) == 1 and len(e.node.body) == 1:
+                    return e, [e.node, inner[0]]
+        return None
+
+    def rng(lp: ast.For, env: dict, vars_: dict[str, Poly]) \
+            -> tuple[Poly, Poly] | None:
+        it = subst(lp.iter, env)
+        if not (isinstance(it, ast.Call) and isinstance(
+                it.func, ast.Name) and it.func.id == "range" and len(
+                it.args) in (1, 2) and not it.keywords and isinstance(
+                lp.target, ast.Name)):
+            return None
+        e_ = Env()
+        e_.vars.update(vars_)
+        try:
+            vals = [ev.num(e_, a_) for a_ in it.args]
+        except Unsupported:
+            return None
+        return (Poly.const(0) if len(vals) == 1 else vals[0]), vals[-1]
+
+    def stores_of(q: Any, nm: str) -> list[Any]:
+        return [e for e in q.events if e.kind == "store" and isinstance(
+            e.value, ast.Subscript) and ast.unparse(e.value.value) == nm]
     # ---- D20.1
-    ds = stores(dname)
-    ok1 = zeros_init(dname) and len(ds) == 1
-    detail = f"{len(ds)} store(s) into the distance matrix"
-    if ok1:
-        s, cx = ds[0]
-        loops = [c for c in cx if isinstance(c, ast.For)]
-        ok1 = len(loops) == 2 and len(cx) == 2
-        if ok1:
-            iv, jv = loops[0].target.id, loops[1].target.id
-            r0 = ast.unparse(loops[0].iter).replace(" ", "")
-            r1 = ast.unparse(loops[1].iter).replace(" ", "")
-            tg = sorted(ast.unparse(t).replace(" ", "") for t in s.targets)
-            env = Env()
-            env.vars.update({iv: Poly.var(iv), jv: Poly.var(jv)})
-            try:
-                val = ev.num(env, s.value)
-            except Unsupported:
-                val = None
-            ok1 = r0 == "range(n)" and r1 == f"range({iv}+1,n)" and tg == \
-                sorted([f"{dname}[{iv},{jv}]", f"{dname}[{jv},{iv}]"]) and \
-                val == Poly.var(jv) - Poly.var(iv)
-            detail = (f"for {iv} in {r0}, {jv} in {r1}: {tg} = "
-                      f"{show(val) if val is not None else '?'}")
-    ctx.ob("D20.1", fi, ds[0][0] if ds else fi.node, ok1,
+    ok1 = zeros_init(dname)
+    detail = "no loop nest stores into the distance matrix"
+    dn = nest_of(dname)
+    d_node: ast.AST = fi.node
+    if ok1 and dn is not None:
+        evn, (lo_, li_) = dn
+        d_node = lo_
+        iv, jv = lo_.target.id, li_.target.id
+        I, J = Poly.var("i"), Poly.var("j")
+        r0 = rng(lo_, evn.extra, {})
+        r1 = rng(li_, evn.extra, {iv: I})
+        qs = paths(li_.body, Path(env=dict(evn.extra)))
+        got = {}
+        clean = len(qs) == 1 and not qs[0].guards
+        if clean:
+            e_ = Env()
+            e_.vars.update({iv: I, jv: J})
+            for st in stores_of(qs[0], dname):
+                try:
+                    idx = ev.index(e_, st.value.slice)
+                    got[idx] = ev.num(e_, st.extra)
+                except Unsupported:
+                    clean = False
+            clean = clean and len(qs[0].events) == len(got) == 2
+        ok1 = clean and r0 == (Poly.const(0), npar) and r1 == (
+            I + Poly.const(1), npar) and got == {(I, J): J - I,
+                                                 (J, I): J - I}
+        detail = (f"for i in [{show(r0[0]) if r0 else '?'}, "
+                  f"{show(r0[1]) if r0 else '?'}), j in ["
+                  f"{show(r1[0]) if r1 else '?'}, "
+                  f"{show(r1[1]) if r1 else '?'}): stores "
+                  + str({tuple(show(x) for x in k): show(v)
+                         for k, v in got.items()}))
+    else:
+        ok1 = False
+    ctx.ob("D20.1", fi, d_node, ok1,
            "position distance: zeros, then " + detail + " - i.e. |i - j|"
            if ok1 else "the position-distance matrix is not |i - j|: "
            + detail, construct="distance matrix")
     # ---- D20.2 / D20.3 / D20.4
-    fs = stores(fname)
-    ok2 = zeros_init(fname) and len(fs) == 1
-    if not ok2:
+    fn_ = nest_of(fname)
+    if not zeros_init(fname) or fn_ is None:
         ctx.ob("D20.2", fi, fi.node, False,
-               f"{len(fs)} store(s) into the flow matrix (expected one, "
-               "into a zero matrix)", construct="flow store")
+               "the flow matrix is not a zero matrix filled by one loop "
+               "nest", construct="flow store")
         return
-    s, cx = fs[0]
-    loops = [c for c in cx if isinstance(c, ast.For)]
-    ok_l = len(loops) == 2 and len(cx) == 2 and all(
-        ast.unparse(lp.iter).replace(" ", "") == "range(n)" for lp in loops)
-    iv, jv = (loops[0].target.id, loops[1].target.id) if len(
-        loops) == 2 else ("i", "j")
-    inner = loops[1].body if len(loops) == 2 else []
-    k = inner.index(s) if s in inner else -1
-    pre = inner[:k] if k >= 0 else []
-    skips = [p for p in pre if isinstance(p, ast.If) and isinstance(
-        p.body[-1], ast.Continue) and not p.orelse]
-    conds = [ast.unparse(p.test).replace(" ", "") for p in skips]
-    fdef = [p for p in pre if isinstance(p, ast.Assign) and isinstance(
-        p.targets[0], ast.Name)]
-    rank = None
-    rank_src = None
-    for p in fdef:
-        src = ast.unparse(p.value).replace(" ", "")
-        if src.endswith(f"[{iv},{jv}]"):
-            rank = p.targets[0].id
-            rank_src = ast.unparse(p.value.value)
-    diag = any(c in (f"{iv}=={jv}", f"{jv}=={iv}") for c in conds)
-    hor = rank is not None and any(
-        c in (f"{rank}>horizon", f"horizon<{rank}") for c in conds)
-    others = [p for p in pre if isinstance(p, (ast.If, ast.For, ast.While))
-              and p not in skips]
-    tgt_ok = [ast.unparse(t).replace(" ", "") for t in s.targets] == [
-        f"{fname}[{iv},{jv}]"]
-    ctx.ob("D20.2", fi, s, bool(ok_l and diag and hor and not others
-                                and tgt_ok),
-           f"flow[{iv},{jv}] is written for all pairs except {conds}: the "
+    evn, (lo_, li_) = fn_
+    iv, jv = lo_.target.id, li_.target.id
+    I, J = Poly.var("i"), Poly.var("j")
+    ok_l = rng(lo_, evn.extra, {}) == (Poly.const(0), npar) and rng(
+        li_, evn.extra, {iv: I}) == (Poly.const(0), npar)
+    qs = paths(li_.body, Path(env=dict(evn.extra)))
+    e_ = Env()
+    e_.vars.update({iv: I, jv: J})
+    H = Poly.var("horizon")
+    store_conds = []
+    s_evt = None
+    rank_expr = None
+    tgt_ok = True
+    extra_events = False
+    for q in qs:
+        sts = stores_of(q, fname)
+        if [e for e in q.events if e not in sts] or q.ended in (
+                "break", "return", "raise"):
+            extra_events = True
+        if not sts:
+            continue
+        if len(sts) != 1:
+            tgt_ok = False
+            continue
+        s_evt = sts[0]
+        try:
+            tgt_ok = tgt_ok and ev.index(e_, s_evt.value.slice) == (I, J)
+            store_conds.append(q.guards)
+        except Unsupported:
+            tgt_ok = False
+    # the rank: the subscript [i, j] of the row-wise rank matrix
+    if s_evt is not None:
+        for x in ast.walk(s_evt.extra):
+            if isinstance(x, ast.Subscript) and ast.unparse(
+                    x.slice).replace(" ", "") in (f"{iv},{jv}",
+                                                 f"({iv},{jv})"):
+                rank_expr = x
+    rank_cell = None
+    if rank_expr is not None:
+        try:
+            rank_cell = ev.num(e_, ast.Subscript(
+                value=ast.Name(id="RANKS$", ctx=ast.Load()),
+                slice=rank_expr.slice, ctx=ast.Load()))
+        except Unsupported:
+            rank_cell = None
+    conds_txt = "?"
+    ok_skip = False
+    if store_conds and rank_expr is not None and rank_cell is not None:
+        from sa.symterm import c_or, map_atom
+
+        def canon(c: tuple) -> tuple:
+            # the rank matrix by one name, whatever expression denotes it
+            return c
+        # evaluate the guards again with the rank matrix named RANKS$
+        rk_src = ast.unparse(rank_expr.value)
+        sc2 = []
+        ok_eval = True
+        for q in qs:
+            if not stores_of(q, fname):
+                continue
+            cs = []
+            for tst, truth in q.guards:
+                class R(ast.NodeTransformer):
+                    def visit_Subscript(self, n: ast.Subscript) -> ast.AST:
+                        if ast.unparse(n.value) == rk_src:
+                            return ast.Subscript(
+                                value=ast.Name(id="RANKS$", ctx=ast.Load()),
+                                slice=n.slice, ctx=ast.Load())
+                        return self.generic_visit(n)
+                import copy as _copy
+                t2 = ast.fix_missing_locations(R().visit(
+                    _copy.deepcopy(tst)))
+                try:
+                    c = ev.cond(e_, t2)
+                except Unsupported:
+                    ok_eval = False
+                    continue
+                cs.append(c if truth else c_not(c))
+            sc2.append(c_and(*cs) if cs else ("true",))
+        want = c_and(c_not(_eq(I, J)), c_not(("lt", H, rank_cell)))
+        got_c = c_or(*sc2) if sc2 else ("false",)
+        conds_txt = show_cond(got_c)[:160]
+        ok_skip = ok_eval and equivalent(got_c, want, integer=False)[0]
+        del map_atom, canon
+    ctx.ob("D20.2", fi, s_evt.node if s_evt else li_,
+           bool(ok_l and ok_skip and tgt_ok and not extra_events),
+           f"flow[{iv},{jv}] is written exactly when [{conds_txt}]: the "
            "diagonal and ranks beyond the horizon stay zero" if ok_l and
-           diag and hor and not others and tgt_ok else
-           f"flow store skipped under {conds} (needs exactly i == j and "
-           f"rank > horizon); loops full: {ok_l}",
+           ok_skip and tgt_ok and not extra_events else
+           f"flow store happens under [{conds_txt}] (needs exactly i != j "
+           f"and not rank > horizon); loops full: {ok_l}",
            construct="flow skip conditions")
-    names = {n.id for n in ast.walk(s.value) if isinstance(n, ast.Name)}
-    allowed = {rank, "multiplier", "max_val", "flow_power", "int", "round"}
-    ok3 = rank is not None and names <= allowed and rank in names
+    if s_evt is None or rank_expr is None:
+        ctx.ob("D20.3", fi, li_, False,
+               "the stored flow does not read the rank of the pair",
+               construct="flow depends on rank only")
+        return
+    # ---- D20.3: the value depends on (i, j) only through the rank
+    rk_src = ast.unparse(rank_expr.value)
+
+    class RK(ast.NodeTransformer):
+        def visit_Subscript(self, n: ast.Subscript) -> ast.AST:
+            if ast.unparse(n) == ast.unparse(rank_expr):
+                return ast.Name(id="RANK$", ctx=ast.Load())
+            return self.generic_visit(n)
+
+        def visit_Call(self, n: ast.Call) -> ast.AST:
+            # max_val = min(n - 1, horizon), by value
+            if isinstance(n.func, ast.Name) and n.func.id == "min" and len(
+                    n.args) == 2 and not n.keywords:
+                try:
+                    vals = {ev.num(Env(), a_) for a_ in n.args}
+                except Unsupported:
+                    vals = set()
+                if vals == {npar - Poly.const(1), H}:
+                    return ast.Name(id="max_val", ctx=ast.Load())
+            return self.generic_visit(n)
+    import copy as _copy
+    val2 = ast.fix_missing_locations(RK().visit(_copy.deepcopy(s_evt.extra)))
+    names = {n.id for n in ast.walk(val2) if isinstance(n, ast.Name)}
+    ok3 = "RANK$" in names and iv not in names and jv not in names and \
+        not any(isinstance(x, ast.Subscript) for x in ast.walk(val2))
     # rank comes from the row-wise ranks of the input distances
-    rk = [p for p in body if isinstance(p, (ast.Assign, ast.AnnAssign))
-          and ast.unparse(p.targets[0] if isinstance(p, ast.Assign)
-                          else p.target) == (rank_src or "?")]
     ok_rk = False
-    if len(rk) == 1:
-        v = rk[0].value
-        # rankdata(<distances param>, axis=1, method="average") - 1
-        if isinstance(v, ast.BinOp) and isinstance(v.op, ast.Sub) and \
-                repo.const(fi.module, v.right) == 1 and isinstance(
-                v.left, ast.Call) and ast.unparse(
-                v.left.func) == "rankdata" and len(
-                v.left.args) == 1 and ast.unparse(
-                v.left.args[0]) == fi.params[1]:
-            kw = {k.arg: repo.const(fi.module, k.value)
-                  for k in v.left.keywords}
-            ok_rk = kw.get("axis") == 1 and kw.get("method") == "average"
-    ctx.ob("D20.3", fi, s, bool(ok3 and ok_rk),
-           f"the stored flow is a function of the rank `{rank}` = "
-           f"{rank_src}[{iv},{jv}] (row-wise rank of the distances) and of "
-           "instance-wide constants only: equally distant neighbours get "
-           "equal flows" if ok3 and ok_rk else
-           f"the stored flow mentions {sorted(names - allowed)} besides the "
-           "rank", construct="flow depends on rank only")
+    v = rank_expr.value
+    if isinstance(v, ast.BinOp) and isinstance(v.op, ast.Sub) and \
+            repo.const(fi.module, v.right) == 1 and isinstance(
+            v.left, ast.Call) and ast.unparse(
+            v.left.func) == "rankdata" and len(
+            v.left.args) == 1 and ast.unparse(
+            v.left.args[0]) == fi.params[1]:
+        kw = {k.arg: repo.const(fi.module, k.value)
+              for k in v.left.keywords}
+        ok_rk = kw.get("axis") == 1 and kw.get("method") == "average"
+    ctx.ob("D20.3", fi, s_evt.node, bool(ok3 and ok_rk),
+           f"the stored flow is a function of the rank "
+           f"({rk_src[:60]})[{iv},{jv}] (row-wise rank of the distances) "
+           "and of instance-wide constants only: equally distant "
+           "neighbours get equal flows" if ok3 and ok_rk else
+           f"the stored flow mentions {sorted(names & {iv, jv})} besides "
+           f"the rank, or the rank is not rankdata(distances, axis=1, "
+           "method='average') - 1", construct="flow depends on rank only")
     # ---- monotonicity
-    pos = {"multiplier": _multiplier_positive(fi),
-           "flow_power": _power_positive(fi)}
-    m = _mono(s.value, rank or "f", pos)
+    mult_names = sorted(names - {"RANK$", "max_val", "flow_power", "int",
+                                 "round", "float", "horizon"})
+    pos = {"flow_power": _power_positive(fi)}
+    for mnm in mult_names:
+        pos[mnm] = _multiplier_positive(fi, mnm)
+    m = _mono(val2, "RANK$", pos)
     ok4 = m in (-1, 0) and all(pos.values())
-    ctx.ob("D20.4", fi, s, ok4,
-           f"`{ast.unparse(s.value)}` is non-increasing in the rank "
-           "(base max_val - rank + 1 decreases; positive power, positive "
-           "multiplier, round and int preserve the order)" if ok4 else
-           f"`{ast.unparse(s.value)}` is not provably non-increasing in "
-           f"the rank (direction {m}, multiplier>0: {pos['multiplier']}, "
-           f"power>0: {pos['flow_power']})", construct="flow antitone")
-    mv = [p for p in body if isinstance(p, (ast.Assign, ast.AnnAssign))
-          and ast.unparse(p.targets[0] if isinstance(p, ast.Assign)
-                          else p.target) == "max_val"]
-    ok_mv = len(mv) == 1 and ast.unparse(mv[0].value).replace(
-        " ", "") in ("min(n-1,horizon)", "min(horizon,n-1)")
+    ctx.ob("D20.4", fi, s_evt.node, ok4,
+           f"`{ast.unparse(s_evt.node.value) if hasattr(s_evt.node, 'value') else '?'}` "
+           "is non-increasing in the rank (base max_val - rank + 1 "
+           "decreases; positive power, positive multiplier, round and int "
+           "preserve the order)" if ok4 else
+           f"`{ast.unparse(val2)[:120]}` is not provably non-increasing in "
+           f"the rank (direction {m}, positive factors: {pos})",
+           construct="flow antitone")
     # the base of the power is >= 1 (a power with exponent > 0 is only
     # monotone on a non-negative base): rank <= horizon (skip guard), rank
     # <= n - 1 (range of ranks), max_val = min(n - 1, horizon)
     from sa.lin import Lin, entails
-    bases = [x.left for x in ast.walk(s.value) if isinstance(x, ast.BinOp)
+    bases = [x.left for x in ast.walk(val2) if isinstance(x, ast.BinOp)
              and isinstance(x.op, ast.Pow)]
-    base_ok = ok_mv and len(bases) == 1
+    base_ok = len(bases) == 1 and "max_val" in names
 
     def lin(e: ast.expr) -> Lin | None:
         if isinstance(e, ast.Constant) and isinstance(
@@ -225,14 +358,14 @@ def run(ctx: Ctx) -> None:
     if base_ok:
         b = lin(bases[0])
         base_ok = False
-        if b is not None and rank is not None:
-            r_, mvs, hz, nn = (Lin.sym(rank), Lin.sym("max_val"),
+        if b is not None:
+            r_, mvs, hz, nn = (Lin.sym("RANK$"), Lin.sym("max_val"),
                                Lin.sym("horizon"), Lin.sym("n"))
             common = [hz - r_, nn - 1 - r_, r_]
             base_ok = all(entails(common + case, b - 1) for case in (
                 [mvs - hz, hz - mvs, nn - 1 - hz],       # max_val = horizon
                 [mvs - (nn - 1), (nn - 1) - mvs, hz - (nn - 1)]))
-    ctx.ob("D20.4", fi, mv[0] if mv else fi.node, base_ok,
+    ctx.ob("D20.4", fi, s_evt.node, base_ok,
            "max_val = min(n - 1, horizon); with rank <= horizon (skip "
            "guard) and rank <= n - 1 the base of the power is >= 1 (linear "
            "entailment in both cases of the minimum)" if base_ok else
@@ -251,13 +384,13 @@ def run(ctx: Ctx) -> None:
     ]
 
 
-def _multiplier_positive(fi: FuncInfo) -> bool:
+def _multiplier_positive(fi: FuncInfo, name: str = "multiplier") -> bool:
     ok = True
     n = 0
     for s in ast.walk(fi.node):
         if isinstance(s, (ast.Assign, ast.AnnAssign)) and ast.unparse(
                 s.targets[0] if isinstance(s, ast.Assign) else s.target) \
-                == "multiplier" and s.value is not None:
+                == name and s.value is not None:
             n += 1
             v = s.value
             if isinstance(v, ast.Constant) and isinstance(
@@ -271,14 +404,58 @@ def _multiplier_positive(fi: FuncInfo) -> bool:
     return ok and n >= 1
 
 
+def _truth(e: ast.expr, var: str, val: float) -> bool | None:
+    """Truth of a test over the single (finite) variable `var` = val."""
+    def num(x: ast.expr) -> float | None:
+        if isinstance(x, ast.Constant) and isinstance(
+                x.value, (int, float)) and not isinstance(x.value, bool):
+            return float(x.value)
+        if isinstance(x, ast.Name) and x.id == var:
+            return val
+        if isinstance(x, ast.UnaryOp) and isinstance(x.op, ast.USub):
+            v = num(x.operand)
+            return None if v is None else -v
+        return None
+    if isinstance(e, ast.UnaryOp) and isinstance(e.op, ast.Not):
+        t = _truth(e.operand, var, val)
+        return None if t is None else not t
+    if isinstance(e, ast.BoolOp):
+        ts = [_truth(v, var, val) for v in e.values]
+        if any(t is None for t in ts):
+            return None
+        return all(ts) if isinstance(e.op, ast.And) else any(ts)
+    if isinstance(e, ast.Call) and isinstance(e.func, ast.Name) and \
+            e.func.id == "isfinite" and len(e.args) == 1 and isinstance(
+            e.args[0], ast.Name) and e.args[0].id == var:
+        return True
+    if isinstance(e, ast.Compare):
+        vals = [num(e.left)] + [num(c) for c in e.comparators]
+        if any(v is None for v in vals):
+            return None
+        ok = True
+        for a, op, b in zip(vals, e.ops, vals[1:]):
+            r = {ast.Lt: a < b, ast.LtE: a <= b, ast.Gt: a > b,
+                 ast.GtE: a >= b, ast.Eq: a == b,
+                 ast.NotEq: a != b}.get(type(op))
+            if r is None:
+                return None
+            ok = ok and r
+        return ok
+    return None
+
+
 def _power_positive(fi: FuncInfo) -> bool:
-    for s in ast.walk(fi.node):
-        if isinstance(s, ast.If) and s.body and isinstance(
-                s.body[-1], ast.Raise):
-            src = ast.unparse(s.test).replace(" ", "")
-            if "0<flow_power<" in src and src.startswith("not"):
-                return True
-    return False
+    """Some raising guard of the constructor fires for every non-positive
+    flow_power (evaluated at -1, 0 and just below/above: interval logic of
+    a single variable against constants is decided by sample points)."""
+    tests = [s.test for s in ast.walk(fi.node) if isinstance(s, ast.If)
+             and s.body and isinstance(s.body[-1], ast.Raise)
+             and any(isinstance(n, ast.Name) and n.id == "flow_power"
+                     for n in ast.walk(s.test))]
+    for v in (-1e9, -1.0, -1e-9, 0.0):
+        if not any(_truth(t, "flow_power", v) is True for t in tests):
+            return False
+    return True
 
 
 def _mono(e: ast.expr, var: str, pos: dict[str, bool]) -> int | None:
@@ -328,120 +505,171 @@ def _mono(e: ast.expr, var: str, pos: dict[str, bool]) -> int | None:
 
 # ------------------------------------------------------------------ D20.5
 def _swap_distance(ctx: Ctx) -> None:
-    """swap_distance = n - number of cycles of the relative permutation."""
+    """swap_distance = n - number of cycles of the relative permutation.
+
+    The function is expanded path by path with its locals inlined, so that
+    temporaries (argsort hoisted), `if m[i]: ...` versus `if not m[i]:
+    continue`, operand orders and the spelling of names do not matter."""
+    from sa.pathinline import Path, paths
     repo = ctx.repo
     fi = repo.func("moptipyapps.order1d.distances", "swap_distance")
     p1, p2 = fi.params
     body = func_body(fi)
     problems: list[str] = []
 
-    def tname(s: ast.stmt) -> str | None:
-        if isinstance(s, ast.Assign) and isinstance(s.targets[0], ast.Name):
-            return s.targets[0].id
-        if isinstance(s, ast.AnnAssign) and isinstance(
-                s.target, ast.Name) and s.value is not None:
-            return s.target.id
-        return None
-    defs = {tname(s): s.value for s in body if tname(s) is not None}
-    nname = next((k for k, v in defs.items() if ast.unparse(v).replace(
-        " ", "") in (f"len({p1})", f"len({p2})")), None)
-    xname = next((k for k, v in defs.items() if ast.unparse(v).replace(
-        " ", "") in (f"{p2}[np.argsort({p1})]", f"{p1}[np.argsort({p2})]")),
-        None)
-    if nname is None:
-        problems.append("the length n is not taken from the permutations")
-    if xname is None:
-        problems.append("the relative permutation p2[argsort(p1)] is not "
-                        "formed")
-    uname = None
-    for k, v in defs.items():
-        if isinstance(v, ast.Call) and ast.unparse(v.func) in (
-                "np.ones", "np.full") and v.args and ast.unparse(
-                v.args[0]) == nname:
-            okv = ast.unparse(v.func) == "np.ones" or (
-                len(v.args) > 1 and repo.const(fi.module, v.args[1]) is True)
-            if okv:
-                uname = k
-    if uname is None:
-        problems.append("no all-True `unvisited` marker array of length n")
-    loop = next((s for s in body if isinstance(s, ast.For)), None)
-    rets = [r for r in ast.walk(fi.node) if isinstance(r, ast.Return)]
+    def src(e: ast.AST | None) -> str:
+        return ast.unparse(e).replace(" ", "") if e is not None else "?"
+    tops = [q for q in paths(body) if q.ended == "return"]
+    tp = tops[0] if len(tops) == 1 else None
+    loop_ev = next((e for e in (tp.events if tp else [])
+                    if e.kind == "loop" and isinstance(e.node, ast.For)),
+                   None)
+    lens = (f"len({p1})", f"len({p2})")
+    rel = (f"{p2}[np.argsort({p1})]", f"{p1}[np.argsort({p2})]")
     cname = None
-    if loop is None or not isinstance(loop.target, ast.Name) or ast.unparse(
-            loop.iter).replace(" ", "") != f"range({nname})":
+    if tp is None or loop_ev is None:
         problems.append("the scan does not visit every position 0..n-1")
-    elif not problems:
-        iv = loop.target.id
-        tests = [s for s in loop.body if isinstance(s, ast.If)]
-        if len(tests) != 1 or len(loop.body) != 1 or tests[0].orelse or \
-                ast.unparse(tests[0].test).replace(" ", "") not in (
-                f"{uname}[{iv}]", f"{uname}[{iv}]==True"):
+    else:
+        loop = loop_ev.node
+        env0 = dict(loop_ev.extra)
+        if not (isinstance(loop.target, ast.Name) and src(
+                loop_ev.value) in tuple(f"range({x})" for x in lens)):
+            problems.append("the scan does not visit every position "
+                            "0..n-1")
+        iv = loop.target.id if isinstance(loop.target, ast.Name) else "?"
+        # the marker array: all True, one cell per position
+        markers = [k for k, v in tp.objs.items() if isinstance(
+            v, ast.Call) and src(v.func) in ("np.ones", "np.full")
+            and v.args and src(v.args[0]) in lens and (
+                src(v.func) == "np.ones" or (len(v.args) > 1 and repo.const(
+                    fi.module, v.args[1]) is True))]
+        # objects are kept by name; their creating call is inlined too
+        uname = markers[0] if len(markers) == 1 else None
+        if uname is None:
+            problems.append("no all-True `unvisited` marker array of "
+                            "length n")
+        qs = paths(loop.body, Path(env=env0, objs=dict(tp.objs)))
+        starts = []
+        for q in qs:
+            changed = {k: v for k, v in q.env.items()
+                       if k not in env0 or env0[k] is not v}
+            incs = {k: v for k, v in changed.items() if isinstance(
+                v, ast.BinOp) and isinstance(v.op, ast.Add) and src(v) in (
+                f"{k}+1", f"1+{k}")}
+            walks = [e for e in q.events if e.kind == "loop"
+                     and isinstance(e.node, ast.While)]
+            stores = [e for e in q.events if e.kind == "store"]
+            if not incs and not walks and not stores:
+                # a skipped position: must be one that is already visited
+                if uname and not _has_guard(q.guards, f"{uname}[{iv}]",
+                                            False):
+                    problems.append("a position is skipped although it may "
+                                    "be unvisited")
+                continue
+            starts.append((q, incs, walks, stores))
+        if len(starts) != 1:
             problems.append("a new cycle is not started exactly at the "
                             "positions that are still unvisited")
         else:
-            blk = tests[0].body
-            incs = [s for s in blk if isinstance(s, ast.AugAssign)
-                    and isinstance(s.op, ast.Add) and isinstance(
-                        s.target, ast.Name) and repo.const(
-                        fi.module, s.value) == 1]
+            q, incs, walks, stores = starts[0]
+            if uname and not _has_guard(q.guards, f"{uname}[{iv}]", True):
+                problems.append("a new cycle is not started exactly at the "
+                                "positions that are still unvisited")
             if len(incs) != 1:
                 problems.append("the cycle counter is not incremented by "
                                 "one per new cycle")
             else:
-                cname = incs[0].target.id
-                if repo.const(fi.module, defs.get(cname)) != 0 or any(
-                        isinstance(s, (ast.Assign, ast.AugAssign)) and s is
-                        not incs[0] and any(
-                            isinstance(t, ast.Name) and t.id == cname
-                            for t in ast.walk(s) if isinstance(
-                                getattr(t, "ctx", None), ast.Store))
-                        for s in ast.walk(loop)):
-                    problems.append("the cycle counter does not start at 0 "
-                                    "or is changed elsewhere")
-            wl = next((s for s in blk if isinstance(s, ast.While)), None)
-            jn = None
-            for s in blk:
-                if tname(s) is not None and ast.unparse(s.value).replace(
-                        " ", "") == f"{xname}[{iv}]":
-                    jn = tname(s)
-            if wl is None or jn is None:
+                cname = next(iter(incs))
+                init = next((e_.extra.get(cname) for e_ in [loop_ev]), None)
+                pre_val = None
+                for st in body:
+                    if st is loop:
+                        break
+                    if isinstance(st, (ast.Assign, ast.AnnAssign)) and \
+                            st.value is not None and src(
+                            st.targets[0] if isinstance(st, ast.Assign)
+                            else st.target) == cname:
+                        pre_val = repo.const(fi.module, st.value)
+                del init
+                if pre_val != 0:
+                    problems.append("the cycle counter does not start at 0")
+            if len(walks) != 1:
                 problems.append("the cycle through position i is not "
                                 "followed (j = x[i]; while j != i)")
             else:
-                tsrc = ast.unparse(wl.test).replace(" ", "")
-                ok_t = tsrc in (f"{jn}!={iv}", f"{iv}!={jn}")
-                marks = [s for s in wl.body if isinstance(s, ast.Assign)
-                         and ast.unparse(s.targets[0]).replace(
-                             " ", "") == f"{uname}[{jn}]" and repo.const(
-                             fi.module, s.value) is False]
-                steps = [s for s in wl.body if tname(s) == jn and
-                         ast.unparse(s.value).replace(
-                             " ", "") == f"{xname}[{jn}]"]
+                w = walks[0]
+                t = src(w.value)
+                ok_t = any(t in (f"{r}[{iv}]!={iv}", f"{iv}!={r}[{iv}]")
+                           for r in rel)
                 if not ok_t:
-                    problems.append("the cycle walk does not stop exactly "
-                                    "when it returns to its start")
-                if len(marks) != 1:
-                    problems.append("positions on the cycle are not marked "
-                                    "visited")
-                if len(steps) != 1 or (marks and steps and wl.body.index(
-                        marks[0]) > wl.body.index(steps[0])):
+                    problems.append(
+                        "the cycle walk does not start at j = x[i] of the "
+                        "relative permutation p2[argsort(p1)] and stop "
+                        "exactly when it returns to its start")
+                    if not any(r in t for r in rel):
+                        problems.append("the relative permutation "
+                                        "p2[argsort(p1)] is not formed")
+                # one round of the walk: mark j, then j = x[j]
+                jn = next((n.id for n in ast.walk(w.node.test)
+                           if isinstance(n, ast.Name) and n.id != iv), None)
+                wenv = {k: v for k, v in w.extra.items()}
+                wq = paths(w.node.body, Path(env=wenv, objs=dict(q.objs)))
+                if len(wq) != 1 or jn is None:
                     problems.append("the walk does not advance j = x[j] "
                                     "after marking j")
-    if len(rets) != 1 or cname is None or ast.unparse(
-            rets[0].value).replace(" ", "") not in (
-            f"{nname}-{cname}", f"int({nname}-{cname})"):
-        problems.append("the result is not n - (number of cycles)")
+                else:
+                    wst = [e for e in wq[0].events if e.kind == "store"]
+                    ok_m = len(wst) == 1 and src(wst[0].value) == \
+                        f"{uname}[{jn}]" and repo.const(
+                            fi.module, wst[0].extra) is False and len(
+                            wq[0].events) == 1
+                    if not ok_m:
+                        problems.append("positions on the cycle are not "
+                                        "marked visited")
+                    if src(wq[0].env.get(jn)) not in tuple(
+                            f"{r}[{jn}]" for r in rel):
+                        problems.append("the walk does not advance j = "
+                                        "x[j] after marking j")
+        ret = next((e for e in tp.events if e.kind == "return"), None)
+        rsrc = src(ret.value) if ret is not None else "?"
+        if cname is None or rsrc not in tuple(
+                f(x) for x in lens for f in (
+                    lambda x: f"{x}-{cname}",
+                    lambda x: f"int({x}-{cname})")):
+            problems.append("the result is not n - (number of cycles)")
     ctx.ob("D20.5", fi, fi.node, not problems,
            "swap_distance counts the cycles of p2[argsort(p1)] (each "
            "unvisited position starts one cycle, which is walked and marked "
            "until it closes) and returns n - cycles, the minimum number of "
-           "transpositions" if not problems else "; ".join(problems),
-           construct="cycle counting")
+           "transpositions" if not problems else "; ".join(dict.fromkeys(
+               problems)), construct="cycle counting")
+
+
+def _has_guard(guards: tuple, text: str, truth: bool) -> bool:
+    """Is `text` (an expression, spaces removed) tested with this outcome?"""
+    for tst, tr in guards:
+        while isinstance(tst, ast.UnaryOp) and isinstance(tst.op, ast.Not):
+            tst, tr = tst.operand, not tr
+        t = ast.unparse(tst).replace(" ", "")
+        if t in (text, f"{text}==True") and tr == truth:
+            return True
+        if t == f"{text}==False" and tr != truth:
+            return True
+    return False
 
 
 # ------------------------------------------------------------------ D20.6
 def _merging(ctx: Ctx) -> None:
-    """from_sequence_and_distance merges zero-distance objects."""
+    """from_sequence_and_distance merges zero-distance objects.
+
+    Decided on the paths through the two loop bodies with all locals
+    inlined (sa.pathinline): per round of the inner loop an invalid
+    distance raises, a zero distance purges object j (list entry, matrix
+    column, mapping to the representative i, j unchanged), any other
+    distance is appended to the row and j advances; per round of the outer
+    loop the row (column i of the earlier rows, then 0) is stored, the
+    representative is mapped to itself and i advances."""
+    from sa.pathinline import Path, paths
     repo = ctx.repo
     fi = repo.func(MOD, "Instance.from_sequence_and_distance")
     body = func_body(fi)
@@ -452,156 +680,135 @@ def _merging(ctx: Ctx) -> None:
                construct="merging protocol")
         return
 
-    def src(n: ast.AST) -> str:
-        return ast.unparse(n).replace(" ", "")
+    def src(n: ast.AST | None) -> str:
+        return ast.unparse(n).replace(" ", "") if n is not None else "?"
 
-    def names_assigned(stmts: list[ast.stmt], nm: str) -> list[ast.stmt]:
-        return [s for s in stmts if isinstance(
-            s, (ast.Assign, ast.AnnAssign, ast.AugAssign)) and isinstance(
-            s.targets[0] if isinstance(s, ast.Assign) else s.target,
-            ast.Name) and (s.targets[0] if isinstance(s, ast.Assign)
-                           else s.target).id == nm]
-    t = outer.test
-    if not (isinstance(t, ast.Compare) and len(t.ops) == 1 and isinstance(
-            t.ops[0], ast.Lt) and isinstance(t.left, ast.Name)
-            and isinstance(t.comparators[0], ast.Call)
-            and src(t.comparators[0].func) in ("len", "list.__len__")):
+    def lt_len(t: ast.expr) -> tuple[ast.expr, str] | None:
+        """`e < len(D)` in any spelling -> (e, D)."""
+        neg = False
+        while isinstance(t, ast.UnaryOp) and isinstance(t.op, ast.Not):
+            t, neg = t.operand, not neg
+        if not (isinstance(t, ast.Compare) and len(t.ops) == 1):
+            return None
+        l_, r_, op = t.left, t.comparators[0], t.ops[0]
+
+        def is_len(e: ast.expr) -> str | None:
+            if isinstance(e, ast.Call) and src(e.func) in (
+                    "len", "list.__len__") and len(e.args) == 1:
+                return src(e.args[0])
+            return None
+        if not neg and isinstance(op, ast.Lt) and is_len(r_):
+            return l_, is_len(r_)
+        if not neg and isinstance(op, ast.Gt) and is_len(l_):
+            return r_, is_len(l_)
+        if neg and isinstance(op, ast.GtE) and is_len(r_):
+            return l_, is_len(r_)
+        if neg and isinstance(op, ast.LtE) and is_len(l_):
+            return r_, is_len(l_)
+        return None
+    o_t = lt_len(outer.test)
+    if o_t is None or not isinstance(o_t[0], ast.Name):
         ctx.ob("D20.6", fi, outer, False,
                "the outer loop is not `while i < len(objects)`",
                construct="merging protocol")
         return
-    iv = t.left.id
-    data = src(t.comparators[0].args[0])
-    pre = body[:body.index(outer)]
-    i0 = names_assigned(pre, iv)
-    if len(i0) != 1 or repo.const(fi.module, i0[-1].value) != 0:
+    iv, data = o_t[0].id, o_t[1]
+    k = body.index(outer)
+    pre = [q for q in paths(body[:k]) if q.ended is None]
+    if not pre:
+        ctx.ob("D20.6", fi, outer, False, "no path reaches the loop",
+               construct="merging protocol")
+        return
+    pp = pre[-1]
+    if repo.const(fi.module, pp.env.get(iv)) != 0:
         problems.append(f"`{iv}` does not start at 0")
-    inner = next((s for s in outer.body if isinstance(s, ast.While)), None)
-    if inner is None:
-        problems.append("no inner loop over the later objects")
+    assigned_o = {n.id for n in ast.walk(outer) if isinstance(n, ast.Name)
+                  and isinstance(n.ctx, ast.Store)}
+    env_o = {a_: b_ for a_, b_ in pp.env.items() if a_ not in assigned_o}
+    oq = paths(outer.body, Path(env=env_o, objs=dict(pp.objs)))
+    if len(oq) != 1:
+        problems.append("a round of the outer loop is not straight-line "
+                        "code around the inner loop")
     else:
-        t2 = inner.test
-        ok2 = isinstance(t2, ast.Compare) and len(t2.ops) == 1 and \
-            isinstance(t2.ops[0], ast.Lt) and isinstance(
-            t2.left, ast.Name) and src(t2.comparators[0]) in (
-            f"len({data})", f"list.__len__({data})")
-        if not ok2:
-            problems.append("the inner loop is not `while j < len(objects)`")
+        q = oq[0]
+        inner_ev = [e for e in q.events if e.kind == "loop"
+                    and isinstance(e.node, ast.While)]
+        if src(q.env.get(iv)) not in (f"{iv}+1", f"1+{iv}"):
+            problems.append(f"`{iv}` does not advance by one per round")
+        if len(inner_ev) != 1:
+            problems.append("no inner loop over the later objects")
         else:
-            jv = t2.left.id
-            before = outer.body[:outer.body.index(inner)]
-            after = outer.body[outer.body.index(inner) + 1:]
-            j0 = names_assigned(before, jv)
-            if len(j0) != 1 or src(j0[0].value) not in (f"{iv}+1",
-                                                         f"1+{iv}"):
-                problems.append(f"`{jv}` does not start at {iv} + 1")
-            # objects of this round
-            o1 = next((s for s in before if isinstance(
-                s, (ast.Assign, ast.AnnAssign)) and s.value is not None
-                and src(s.value) == f"{data}[{iv}]"), None)
-            o2 = next((s for s in inner.body if isinstance(
-                s, (ast.Assign, ast.AnnAssign)) and s.value is not None
-                and src(s.value) == f"{data}[{jv}]"), None)
-            o1n = (o1.targets[0] if isinstance(o1, ast.Assign)
-                   else o1.target).id if o1 is not None else None
-            o2n = (o2.targets[0] if isinstance(o2, ast.Assign)
-                   else o2.target).id if o2 is not None else None
-            if o1n is None or o2n is None:
-                problems.append("the two compared objects are not "
-                                f"{data}[{iv}] and {data}[{jv}]")
-            # the row under construction
-            rows = None
-            rowv = None
-            for s in before:
-                if isinstance(s, (ast.Assign, ast.AnnAssign)) and isinstance(
-                        s.value, ast.ListComp) and len(
-                        s.value.generators) == 1:
-                    g = s.value.generators[0]
-                    if isinstance(s.value.elt, ast.Subscript) and src(
-                            s.value.elt) == f"{src(g.target)}[{iv}]" and \
-                            not g.ifs:
-                        rows = src(g.iter)
-                        rowv = (s.targets[0] if isinstance(s, ast.Assign)
-                                else s.target).id
-            if rows is None:
-                problems.append("a new row does not start with column i of "
-                                "the earlier rows (symmetry)")
+            ie = inner_ev[0]
+            inner = ie.node
+            raw_t = lt_len(inner.test)
+            inl_t = lt_len(ie.value)
+            if raw_t is None or not isinstance(
+                    raw_t[0], ast.Name) or raw_t[1] != data:
+                problems.append("the inner loop is not `while j < "
+                                "len(objects)`")
             else:
-                diag = [s for s in before if isinstance(s, ast.Expr)
-                        and src(s.value) == f"{rowv}.append(0)"]
-                if len(diag) != 1:
-                    problems.append("the diagonal entry 0 is not appended")
-                # purge / keep branches
-                dist_def = next((s for s in inner.body if isinstance(
-                    s, (ast.Assign, ast.AnnAssign)) and isinstance(
-                    s.value, ast.Call) and src(s.value.func) == fi.params[1]),
-                    None)
-                dn = (dist_def.targets[0] if isinstance(dist_def, ast.Assign)
-                      else dist_def.target).id if dist_def is not None \
-                    else None
-                if dn is None or sorted(src(a) for a in
-                                        dist_def.value.args) != sorted(
-                        [o1n or "?", o2n or "?"]):
-                    problems.append("the distance is not get_distance of "
-                                    "the two objects of this round")
-                purge = next((s for s in inner.body if isinstance(s, ast.If)
-                              and dn is not None and src(s.test) in (
-                                  f"{dn}<=0", f"{dn}==0", f"0>={dn}",
-                                  f"{dn}<=0.0", f"{dn}==0.0")), None)
-                if purge is None:
-                    problems.append("objects at distance 0 are not singled "
-                                    "out (`if dist <= 0`)")
+                jv = raw_t[0].id
+                if inl_t is None or src(inl_t[0]) not in (f"{iv}+1",
+                                                          f"1+{iv}"):
+                    problems.append(f"`{jv}` does not start at {iv} + 1")
+                # the row under construction: the list that is appended to
+                # the matrix at the end of the round
+                apps = [e for e in q.events if e.kind == "expr"
+                        and isinstance(e.value, ast.Call) and isinstance(
+                            e.value.func, ast.Attribute)
+                        and e.value.func.attr == "append"
+                        and len(e.value.args) == 1]
+                row_apps = [e for e in apps if isinstance(
+                    e.value.args[0], ast.Name)
+                    and e.value.args[0].id in q.objs]
+                rowv = row_apps[0].value.args[0].id if len(
+                    row_apps) == 1 else None
+                rows = src(row_apps[0].value.func.value) if rowv else None
+                if rowv is None:
+                    problems.append("the row of a round is not stored in "
+                                    "the matrix")
                 else:
-                    pb = [src(s) for s in purge.body]
-                    need = [f"mappings.append(({o2n},{iv}))",
-                            f"del{data}[{jv}]"]
+                    rdef = q.objs[rowv]
+                    zero_app = [e for e in apps if src(e.value) ==
+                                f"{rowv}.append(0)"]
+
+                    def col_i(g_elt: ast.expr, gens: list) -> bool:
+                        return len(gens) == 1 and not gens[0].ifs and src(
+                            gens[0].iter) == rows and src(g_elt) == \
+                            f"{src(gens[0].target)}[{iv}]"
+                    form1 = isinstance(rdef, ast.ListComp) and col_i(
+                        rdef.elt, rdef.generators) and len(zero_app) == 1 \
+                        and q.events.index(zero_app[0]) < q.events.index(ie)
+                    form2 = isinstance(rdef, ast.List) and len(
+                        rdef.elts) == 2 and isinstance(
+                        rdef.elts[0], ast.Starred) and isinstance(
+                        rdef.elts[0].value, (ast.GeneratorExp,
+                                             ast.ListComp)) and col_i(
+                        rdef.elts[0].value.elt,
+                        rdef.elts[0].value.generators) and repo.const(
+                        fi.module, rdef.elts[1]) == 0 and not zero_app
+                    if not (form1 or form2):
+                        problems.append("a new row does not start with "
+                                        "column i of the earlier rows "
+                                        "followed by the diagonal entry 0")
+                    # the representative is recorded with its own index
+                    self_maps = [e for e in apps if e not in row_apps
+                                 and e not in zero_app]
                     maps = None
-                    for s in purge.body:
-                        if isinstance(s, ast.Expr) and isinstance(
-                                s.value, ast.Call) and src(
-                                s.value.func).endswith(".append") and \
-                                s.value.args and src(
-                                s.value.args[0]) == f"({o2n},{iv})":
-                            maps = src(s.value.func)[:-7]
-                    if maps is None:
-                        problems.append("a merged object is not recorded "
-                                        "with the index of its "
-                                        "representative")
-                    if f"del{data}[{jv}]" not in pb:
-                        problems.append("a merged object is not removed "
-                                        "from the object list")
-                    cols = [s for s in purge.body if isinstance(s, ast.For)
-                            and src(s.iter) == rows and len(s.body) == 1
-                            and src(s.body[0]) ==
-                            f"del{src(s.target)}[{jv}]"]
-                    if len(cols) != 1:
-                        problems.append("the column of a merged object is "
-                                        "not removed from the earlier rows")
-                    if not (purge.body and isinstance(
-                            purge.body[-1], ast.Continue)) or any(
-                            names_assigned([s], jv) for s in purge.body):
-                        problems.append("after a merge the same position "
-                                        "must be examined again (continue, "
-                                        "j unchanged)")
-                    rest = inner.body[inner.body.index(purge) + 1:]
-                    keep_app = [s for s in rest if isinstance(s, ast.Expr)
-                                and src(s.value) == f"{rowv}.append({dn})"]
-                    keep_inc = [s for s in rest if isinstance(
-                        s, ast.AugAssign) and src(s) == f"{jv}+=1"]
-                    if len(keep_app) != 1 or len(keep_inc) != 1 or len(
-                            rest) != 2:
-                        problems.append("a kept object does not contribute "
-                                        "exactly one distance and one step")
-                    del need
-                    # end of the round
-                    a_src = [src(s) for s in after]
-                    want = [f"{maps}.append(({o1n},{iv}))" if maps else "?",
-                            f"{rows}.append({rowv})", f"{iv}+=1"]
-                    if sorted(a_src) != sorted(want):
-                        problems.append(
-                            "a round does not end with: record the "
-                            "representative itself, store the row, advance "
-                            f"(found {a_src})")
+                    if len(self_maps) == 1 and src(
+                            self_maps[0].value.args[0]) == \
+                            f"({data}[{iv}],{iv})":
+                        maps = src(self_maps[0].value.func.value)
+                    else:
+                        problems.append("a round does not record the "
+                                        "representative itself")
+                    extra = [e for e in q.events if e not in apps
+                             and e is not ie]
+                    if extra:
+                        problems.append("a round of the outer loop does "
+                                        "more than build and store one row")
+                    _inner_rounds(repo, fi, ie, q, data, iv, jv, rowv,
+                                  rows or "?", maps, problems, src)
                     # the result
                     rets = [r for r in ast.walk(fi.node)
                             if isinstance(r, ast.Return)]
@@ -620,45 +827,170 @@ def _merging(ctx: Ctx) -> None:
                     else:
                         ctor = repo.func(MOD, "Instance.__init__").params[1:]
                         a = rets[0].value.args
-                        for k in (1, 2, 3):
-                            if k < len(a) and src(a[k]) != ctor[k]:
+                        for k_ in (1, 2, 3):
+                            if k_ < len(a) and src(a[k_]) != ctor[k_]:
                                 problems.append(
-                                    f"constructor parameter `{ctor[k]}` "
-                                    f"receives `{src(a[k])}`")
-                    # distances are validated before use: raise iff not
-                    # (finite and 0 <= d <= 1e100)
-                    val = next((s for s in inner.body if isinstance(
-                        s, ast.If) and s.body and isinstance(
-                        s.body[-1], ast.Raise)), None)
-                    okv = False
-                    if val is not None and isinstance(
-                            val.test, ast.UnaryOp) and isinstance(
-                            val.test.op, ast.Not) and isinstance(
-                            val.test.operand, ast.BoolOp) and isinstance(
-                            val.test.operand.op, ast.And):
-                        parts = val.test.operand.values
-                        fin = any(src(p_) in (f"isfinite({dn})",
-                                              f"math.isfinite({dn})",
-                                              f"np.isfinite({dn})")
-                                  for p_ in parts)
-                        rng = any(isinstance(p_, ast.Compare) and len(
-                            p_.ops) == 2 and all(isinstance(o, ast.LtE)
-                                                 for o in p_.ops)
-                            and repo.const(fi.module, p_.left) == 0
-                            and src(p_.comparators[0]) == dn
-                            and repo.const(fi.module, p_.comparators[1])
-                            == 1e100 for p_ in parts)
-                        okv = fin and rng and inner.body.index(
-                            val) < inner.body.index(purge)
-                    if not okv:
-                        problems.append(
-                            "a distance is not rejected exactly when it is "
-                            "not finite or outside [0, 1e100] (before it "
-                            "is used)")
+                                    f"constructor parameter `{ctor[k_]}` "
+                                    f"receives `{src(a[k_])}`")
     ctx.ob("D20.6", fi, outer, not problems,
            "objects at distance 0 from an earlier representative are "
            "removed (list entry and matrix column), recorded with the "
            "representative's index and the position is examined again; "
            "kept objects contribute one symmetric distance; every "
            "representative is recorded with its own index" if not problems
-           else "; ".join(problems), construct="merging protocol")
+           else "; ".join(dict.fromkeys(problems)),
+           construct="merging protocol")
+
+
+def _inner_rounds(repo: Any, fi: FuncInfo, ie: Any, q: Any, data: str,
+                  iv: str, jv: str, rowv: str, rows: str, maps: str | None,
+                  problems: list[str], src: Any) -> None:
+    """One round of the inner loop of from_sequence_and_distance."""
+    from sa.pathinline import Path, paths
+    inner = ie.node
+    wq = paths(inner.body, Path(env=dict(ie.extra), objs=dict(q.objs)))
+    gd = fi.params[1]
+    dcall_srcs = {f"{gd}({data}[{iv}],{data}[{jv}])",
+                  f"{gd}({data}[{jv}],{data}[{iv}])"}
+
+    def dist_of(tst: ast.AST) -> str | None:
+        for n in ast.walk(tst):
+            if isinstance(n, ast.Call) and src(n) in dcall_srcs:
+                return src(n)
+        return None
+    raise_tests: list[tuple[ast.AST, bool]] = []
+    kinds = {"purge": 0, "keep": 0}
+    for w in wq:
+        if w.ended == "raise":
+            raise_tests += [g for g in w.guards]
+            continue
+        evs = [e for e in w.events]
+        jnew = src(w.env.get(jv)) if jv in w.env else jv
+        dels = [e for e in evs if e.kind == "other" and isinstance(
+            e.node, ast.Delete)]
+        apps = [e for e in evs if e.kind == "expr" and isinstance(
+            e.value, ast.Call) and isinstance(
+            e.value.func, ast.Attribute) and e.value.func.attr == "append"]
+        loops = [e for e in evs if e.kind == "loop"]
+        if dels or loops:
+            kinds["purge"] += 1
+            # guard: the distance is zero (<= 0 after validation)
+            zero = any(dist_of(t) and _zero_test(t, dist_of(t), tr, src)
+                       for t, tr in w.guards)
+            if not zero:
+                problems.append("objects at distance 0 are not singled "
+                                "out (`if dist <= 0`)")
+            if not any(src(e.node) == f"del{data}[{jv}]" for e in dels):
+                problems.append("a merged object is not removed from the "
+                                "object list")
+            okc = len(loops) == 1 and isinstance(
+                loops[0].node, ast.For) and src(loops[0].node.iter) == rows \
+                and len(loops[0].node.body) == 1 and src(
+                loops[0].node.body[0]) == \
+                f"del{src(loops[0].node.target)}[{jv}]"
+            if not okc:
+                problems.append("the column of a merged object is not "
+                                "removed from the earlier rows")
+            okm = maps is not None and any(
+                src(e.value) == f"{maps}.append(({data}[{jv}],{iv}))"
+                for e in apps)
+            if not okm:
+                problems.append("a merged object is not recorded with the "
+                                "index of its representative")
+            # the object must be read before it is deleted
+            if jnew != jv or w.ended not in (None, "continue"):
+                problems.append("after a merge the same position must be "
+                                "examined again (continue, j unchanged)")
+            if len(apps) != 1 or len(evs) != len(dels) + len(loops) + 1:
+                problems.append("a merge does more than record, delete the "
+                                "object and delete its column")
+        else:
+            kinds["keep"] += 1
+            okk = len(apps) == 1 and len(evs) == 1 and src(
+                apps[0].value.func.value) == rowv and src(
+                apps[0].value.args[0]) in dcall_srcs and jnew in (
+                f"{jv}+1", f"1+{jv}") and w.ended in (None, "continue")
+            if not okk:
+                problems.append("a kept object does not contribute exactly "
+                                "one distance and one step")
+    if kinds["purge"] != 1 or kinds["keep"] != 1:
+        problems.append("a round of the inner loop is not: reject / merge "
+                        "/ keep")
+    # validation: raise iff not (finite and 0 <= d <= 1e100)
+    okv = bool(raise_tests)
+    dsrc = next((dist_of(t) for t, _ in raise_tests if dist_of(t)), None)
+    if dsrc is None:
+        okv = False
+    else:
+        import copy as _copy
+
+        class R(ast.NodeTransformer):
+            def visit_Call(self, n: ast.Call) -> ast.AST:
+                if src(n) == dsrc:
+                    return ast.Name(id="d", ctx=ast.Load())
+                return self.generic_visit(n)
+
+        def raised(val: float, finite: bool) -> bool | None:
+            """Is some raise path taken for this distance?"""
+            res = False
+            for w in wq:
+                if w.ended != "raise":
+                    continue
+                allg = True
+                for t, tr in w.guards:
+                    t2 = R().visit(_copy.deepcopy(t))
+                    tv = _truth_f(t2, val, finite)
+                    if tv is None:
+                        return None
+                    if tv != tr:
+                        allg = False
+                        break
+                res = res or allg
+            return res
+        for v, want in ((-1.0, True), (0.0, False), (1.0, False),
+                        (1e100, False), (1e101, True)):
+            if raised(v, True) is not want:
+                okv = False
+        if raised(1.0, False) is not True:
+            okv = False
+    if not okv:
+        problems.append("a distance is not rejected exactly when it is "
+                        "not finite or outside [0, 1e100] (before it is "
+                        "used)")
+
+
+def _truth_f(e: ast.AST, val: float, finite: bool) -> bool | None:
+    """_truth for the variable `d` with isfinite(d) = finite."""
+    if isinstance(e, ast.UnaryOp) and isinstance(e.op, ast.Not):
+        t = _truth_f(e.operand, val, finite)
+        return None if t is None else not t
+    if isinstance(e, ast.BoolOp):
+        ts = [_truth_f(v, val, finite) for v in e.values]
+        if any(t is None for t in ts):
+            return None
+        return all(ts) if isinstance(e.op, ast.And) else any(ts)
+    if isinstance(e, ast.Call) and ast.unparse(e.func).split(".")[-1] == \
+            "isfinite" and len(e.args) == 1 and isinstance(
+            e.args[0], ast.Name) and e.args[0].id == "d":
+        return finite
+    if isinstance(e, ast.Compare):
+        if not finite:
+            return False           # comparisons with NaN are False
+        return _truth(e, "d", val)
+    return None
+
+
+def _zero_test(t: ast.AST, dsrc: str, truth: bool, src: Any) -> bool:
+    """Is (t, truth) the test `dist <= 0` / `dist == 0` (any spelling)?"""
+    import copy as _copy
+
+    class R(ast.NodeTransformer):
+        def visit_Call(self, n: ast.Call) -> ast.AST:
+            if src(n) == dsrc:
+                return ast.Name(id="d", ctx=ast.Load())
+            return self.generic_visit(n)
+    t2 = R().visit(_copy.deepcopy(t))
+    # on validated distances (d >= 0): true exactly at d == 0
+    return _truth(t2, "d", 0.0) is truth and _truth(
+        t2, "d", 1.0) is (not truth) and _truth(t2, "d", 1e-9) is (
+        not truth)
